@@ -1823,6 +1823,11 @@ func (m *repoManager) newVersion(parent dvid.UUID, note string, branchname strin
 		return dvid.NilUUID, ErrInvalidVersion
 	}
 
+	// Serialize version creation within a repo: the branch-uniqueness check below and the insertion of the
+	// child are otherwise a check-then-act race (two requests could both add a child on the same branch).
+	r.versionMu.Lock()
+	defer r.versionMu.Unlock()
+
 	node.RLock()
 	defer node.RUnlock()
 	if !node.locked {
@@ -2429,6 +2434,9 @@ type repoT struct {
 	mutCurID   uint64
 	mutSavedID uint64
 	mutMu      sync.RWMutex
+
+	// versionMu serializes the creation of new versions (not persisted).
+	versionMu sync.Mutex
 }
 
 // newRepo creates a new repository given a UUID, version, and RepoID,
